@@ -3,7 +3,7 @@ let cut_pieces (l : n list) (cuts : string) : n list list =
   let a = Array.of_list l in
   let n = Array.length a in
   let pos = ref 0 in
-  let ps = List.map (fun t -> let k = min (int_of_string t) (n - !pos) in
+  let ps = List.map (fun t -> let k = Stdlib.min (int_of_string t) (n - !pos) in
                               let p = Array.to_list (Array.sub a !pos k) in pos := !pos + k; p)
              (String.split_on_char ',' cuts) in
   ps @ [Array.to_list (Array.sub a !pos (n - !pos))]
@@ -12,6 +12,14 @@ let form_kinds = ["text_value"; "text_value_input"; "textarea_value"; "hidden_va
                   "checkbox_ident"; "submit_value"; "select_id"; "select_text"; "select_tr_text"; "multi_id"; "multi_text";
                   "multi_tr_text"; "radio_id"; "radio_text"; "radio_tr_text"; "message_label"]
 let kind_index k = let rec go i = function [] -> 99 | x :: r -> if x = k then i else go (i+1) r in go 0 form_kinds
+(* sink spec of the harness: B<room> A<budget> K<k> T P<k>.<m> *)
+let sink_of (sp : string) =
+  let num s = nat_of_int (int_of_string s) in
+  let rest = String.sub sp 1 (String.length sp - 1) in
+  match sp.[0] with
+  | 'B' -> SBounded (num rest) | 'A' -> SAllOrNothing (num rest) | 'K' -> SKthFails (num rest) | 'T' -> SAlternate
+  | 'P' -> (match String.split_on_char '.' rest with [k; m] -> SPartial (num k, num m) | _ -> failwith "spec")
+  | _ -> failwith "spec"
 let () = main_loop (function
   | ["esc"; h] -> "esc " ^ hex_of_bytes (escape (bytes_of_hex h))
   | ["escs"; room; h] ->
@@ -36,6 +44,12 @@ let () = main_loop (function
          | _ -> (filter_base64_sink r ps, filter_base64_stream_ok r ps)) in
       "pcsf " ^ hex_of_bytes o ^ " st=" ^ string_of_bool st ^ " rel=" ^ string_of_bool rel
   | ["strf"; _; _] -> "strf - st=0"   (* escape(b,e,ostream&) returns at once; ostream_iterator / write on a failed stream do nothing *)
+  | ["escg"; sp; h] -> let (o, ok) = escape_gs (acc_of (sink_of sp)) (bytes_of_hex h) in "escg " ^ hex_of_bytes o ^ " " ^ string_of_bool ok
+  | ["uencg"; sp; h] -> let (o, ok) = urlencode_gs (acc_of (sink_of sp)) (bytes_of_hex h) in "uencg " ^ hex_of_bytes o ^ " " ^ string_of_bool ok
+  | ["pcsg"; op; sp; cuts; h] ->
+      let ps = cut_pieces (bytes_of_hex h) cuts and a = acc_of (sink_of sp) in
+      let ((o, st), rel) = (match op with "esc" -> fbg_run a r_escape ps | "uenc" -> fbg_run a r_urlencode ps | _ -> filter_base64_gs a ps) in
+      "pcsg " ^ hex_of_bytes o ^ " st=" ^ string_of_bool st ^ " rel=" ^ string_of_bool rel
   | ["pcsb"; op; h] ->
       let v = bytes_of_hex h in
       let (o, st) = (match op with "esc" -> filter_on_failed_stream escape v | "uenc" -> filter_on_failed_stream urlencode v
